@@ -333,7 +333,7 @@ class C20(common.Check):
         for ln in (1, 2, 3, 4) + ((5,) if tier == "thorough" else ()):
             for seq in itertools.product(range(n), repeat=ln):
                 k += 1
-                out.append([list(seq), ("corp.example", None, "a.b.c.d.test", "", "corp", "LOCAL")[k % 6]])  # "" = the domain of a blob whose key identifier has none
+                out.append([list(seq), ("corp.example", None, "a.b.c.d.test", "", "corp", "LOCAL", "corp.example.", "gone.test.")[k % 8]])  # "" = the domain of a blob whose key identifier has none
         # answers in which several records name the same host (multi-homed DC listed twice): all host assignments for length <= 3
         for ln in (2, 3):
             for seq in itertools.product(range(0, n, 2), repeat=ln):
